@@ -79,7 +79,7 @@ func runC14(t *simrt.Tape, o Opts) Outcome {
 			actors = append(actors, a)
 		}
 		foreignRace := t.Choose(4, "foreign-race") == 1
-		nenc := 1 + t.Choose(3, "nenc")
+		nenc := 1 + t.Choose(scale(o, 3, 5), "nenc")
 		var tasks []*simrt.Task
 		for i, a := range actors {
 			a := a
@@ -225,8 +225,8 @@ func runC16(t *simrt.Tape, o Opts) Outcome {
 			parts[i] = fmt.Sprintf("p%d", i)
 		}
 		p := w.NewProc(pol)
-		nclients := 2 + t.Choose(4, "nclients")
-		opsPer := 2 + t.Choose(4, "opsper")
+		nclients := 2 + t.Choose(scale(o, 4, 6), "nclients")
+		opsPer := 2 + t.Choose(scale(o, 4, 8), "opsper")
 		var advanced time.Duration
 		noEvict := func() bool {
 			return pol.SessSize >= nparts && (pol.SessDur == 0 || advanced < pol.SessDur)
